@@ -29,6 +29,8 @@ ALPHA = ['a', 'b', 'A', ' ', 'a', 'b', '"', "'", ',', '(', u'é', u'Ü', '1',
          ' ', 'B']
 
 
+# white space other than the blank (TRIM and friends only know U+0020)
+WHITE = ['\t', u'\xa0', '\n', u'\u3000', ' ', u'\u2003']
 # texts that SPELL another kind of value (boolean, number, error, blank)
 SPECIAL = ['false', 'FALSE', 'False', 'true', 'TRUE', '0', '1', '-1', '00',
            '0.0', '#N/A', '#VALUE!', '1e3', '1E3', 'null', 'None', 'nan',
@@ -39,7 +41,8 @@ def _text(d, maxlen):
     if d.chance(1, 12):
         return d.choice(SPECIAL)
     n = d.pick(maxlen + 1)
-    return ''.join(d.choice(ALPHA) for _ in range(n))
+    alpha = ALPHA + WHITE if d.chance(1, 6) else ALPHA
+    return ''.join(d.choice(alpha) for _ in range(n))
 
 
 def _build(d, maxlen):
@@ -92,6 +95,11 @@ def _build(d, maxlen):
         if fn == 'TRIM' and d.chance(1, 2):
             args = [' ' * d.pick(3) + 'a' + ' ' * d.pick(4) + 'b c' +
                     ' ' * d.pick(3)]
+            if d.chance(1, 3):
+                w = d.choice(WHITE)
+                args = [d.choice([w, ' ' + w, '']) + 'a' + d.choice(
+                    [w, w + ' ', ' ' + w + ' ', '  ']) + 'b' + d.choice(
+                        [w, w + ' ', ''])]
     elif fn == 'EXACT':
         t = _text(d, maxlen)
         if d.chance(1, 2) and isinstance(s, str):
